@@ -100,6 +100,18 @@ def run(ck, ctx):
         if r.value is None:
             raise AnalysisError("EAS.altDec has no normal exit")
         altDec, lenDec = r.ret(0), r.ret(1)
+        # the decay length is -gamma beta c tau0 ln(u) for the u the caller handed in: the stage leaves that array - and
+        # every other argument - as it was (np.asarray of a float64 array IS that array)
+        from .effects import writes
+        ws = writes(r, kinds=("input",))
+        for e, hit in ws:
+            tgt = ", ".join(sorted({x.attr.split("#")[0] for x in hit if x.op == "Input"}))
+            ck.ob("R07.9", f"EAS.altDec: argument '{tgt}' is not modified [{e.where()}]", False, e.node, func,
+                  f"{e.data.get('how')} writes into an object that may be the caller's array: a second evaluation with "
+                  "the same random numbers sees other numbers",
+                  construct=f"EAS.altDec: in-place {e.data.get('how')} on parameter {tgt}")
+        ck.ob("R07.9", "EAS.altDec modifies none of the arrays it is given", not ws, r.value, func,
+              f"{sum(1 for e in r.effects if e.kind == 'write')} in-place operations inspected")
         uf = unit_facet(I)
         uf.seed(beta, Un.RAD)
         uf.seed(tb, Un.PURE)
